@@ -333,47 +333,44 @@ func parseClass(sc *scanner, allowset bool) class {
 
 func parseClassSet(sc *scanner) class {
 	set := &setClass{false, []class{}}
-	if sc.Peek() == '^' {
+	src := sc.src
+	p := sc.CurrentPos() + 1 // the byte after '['
+	if p < len(src) && src[p] == '^' {
 		set.IsNot = true
-		sc.Next()
+		p++
 	}
-	isrange := false
+	// find the closing bracket: the first byte belongs to the set even if it is ']',
+	// a byte that follows '%' never closes the set
+	ec := p
 	for {
-		ch := sc.Peek()
-		switch ch {
-		// case '[':
-		// 	panic(newError(sc.CurrentPos(), "'[' can not be nested"))
-		case EOS:
-			panic(newError(sc.CurrentPos(), "unexpected EOS"))
-		case ']':
-			if len(set.Classes) > 0 {
-				sc.Next()
-				goto exit
-			}
-			fallthrough
-		case '-':
-			if len(set.Classes) > 0 {
-				sc.Next()
-				isrange = true
-				continue
-			}
-			fallthrough
+		if ec >= len(src) {
+			panic(newError(len(src), "malformed pattern (missing ']')"))
+		}
+		ch := src[ec]
+		ec++
+		if ch == '%' && ec < len(src) {
+			ec++
+		}
+		if ec < len(src) && src[ec] == ']' {
+			break
+		}
+	}
+	for p < ec {
+		ch := src[p]
+		switch {
+		case ch == '%':
+			// %x is a class or an escaped byte and never begins a range
+			set.Classes = append(set.Classes, &singleClass{int(src[p+1])})
+			p += 2
+		case p+2 < ec && src[p+1] == '-':
+			set.Classes = append(set.Classes, &rangeClass{&charClass{int(ch)}, &charClass{int(src[p+2])}})
+			p += 3
 		default:
-			set.Classes = append(set.Classes, parseClass(sc, false))
-		}
-		if isrange {
-			begin := set.Classes[len(set.Classes)-2]
-			end := set.Classes[len(set.Classes)-1]
-			set.Classes = set.Classes[0 : len(set.Classes)-2]
-			set.Classes = append(set.Classes, &rangeClass{begin, end})
-			isrange = false
+			set.Classes = append(set.Classes, &charClass{int(ch)})
+			p++
 		}
 	}
-exit:
-	if isrange {
-		set.Classes = append(set.Classes, &charClass{'-'})
-	}
-
+	sc.State.Pos = ec // the closing bracket is the byte the scanner has just read
 	return set
 }
 
@@ -458,6 +455,7 @@ exit:
 type iptr struct {
 	insts   []inst
 	capture int
+	open    map[int]bool // captures whose closing parenthesis has not been compiled yet
 }
 
 func compilePattern(p pattern, ps ...*iptr) []inst {
@@ -465,7 +463,7 @@ func compilePattern(p pattern, ps ...*iptr) []inst {
 	toplevel := false
 	if len(ps) == 0 {
 		toplevel = true
-		ptr = &iptr{[]inst{inst{opSave, nil, 0, -1}}, 2}
+		ptr = &iptr{[]inst{inst{opSave, nil, 0, -1}}, 2, map[int]bool{}}
 	} else {
 		ptr = ps[0]
 	}
@@ -505,12 +503,19 @@ func compilePattern(p pattern, ps ...*iptr) []inst {
 		c0, c1 := ptr.capture, ptr.capture+1
 		ptr.capture += 2
 		ptr.insts = append(ptr.insts, inst{opSave, nil, c0, -1})
+		ptr.open[c0] = true
 		compilePattern(pat.Pattern, ptr)
+		delete(ptr.open, c0)
 		ptr.insts = append(ptr.insts, inst{opSave, nil, c1, -1})
 	case *bracePattern:
 		ptr.insts = append(ptr.insts, inst{opBrace, nil, pat.Begin, pat.End})
 	case *numberPattern:
-		ptr.insts = append(ptr.insts, inst{opNumber, nil, pat.N, -1})
+		// a reference from inside the capture it names is a reference to an unfinished capture
+		unfinished := -1
+		if ptr.open[pat.N*2] {
+			unfinished = 1
+		}
+		ptr.insts = append(ptr.insts, inst{opNumber, nil, pat.N, unfinished})
 	}
 	if toplevel {
 		if p.(*seqPattern).MustTail {
@@ -593,7 +598,7 @@ redo:
 		return false, sp, m
 	case opNumber:
 		idx := inst.Operand1 * 2
-		if idx >= m.CaptureLength()-1 {
+		if idx >= m.CaptureLength()-1 || inst.Operand2 == 1 {
 			panic(newError(_UNKNOWN, "invalid capture index"))
 		}
 		if m.IsPosCapture(idx) {
